@@ -299,11 +299,37 @@ func returnValues(v ssa.Value) []ssa.Value {
 }
 
 func freshFrom(v ssa.Value, producer *ssa.Function) bool {
+	return freshFromDepth(v, producer, 0)
+}
+
+// freshFromDepth: v is the result of producer, or of an in-package wrapper every
+// return of which is (e.g. a `row()` accessor around fromProto).
+func freshFromDepth(v ssa.Value, producer *ssa.Function, depth int) bool {
 	v = core.Resolve(v)
-	if call, ok := v.(*ssa.Call); ok {
-		return call.Call.StaticCallee() == producer
+	call, ok := v.(*ssa.Call)
+	if !ok {
+		return false
 	}
-	return false
+	callee := call.Call.StaticCallee()
+	if callee == producer {
+		return true
+	}
+	if callee == nil || callee.Blocks == nil || depth > 3 || core.PkgPathOf(callee) != core.PkgPathOf(producer) {
+		return false
+	}
+	n := 0
+	for _, r := range returnsIn(callee) {
+		if len(r.Results) != 1 {
+			return false
+		}
+		for _, rv := range returnValues(r.Results[0]) {
+			n++
+			if !freshFromDepth(rv, producer, depth+1) {
+				return false
+			}
+		}
+	}
+	return n > 0
 }
 
 // anyArgFrom: some argument of the call, or a field of a struct argument built
@@ -319,6 +345,17 @@ func anyArgFrom(ci *core.CallInfo, producer *ssa.Function) bool {
 			return true
 		}
 		switch x := v.(type) {
+		case *ssa.Call:
+			// a constructor helper of the same package: look at what it returns
+			if callee := x.Call.StaticCallee(); callee != nil && callee.Blocks != nil && core.PkgPathOf(callee) == core.PkgPathOf(producer) {
+				for _, r := range returnsIn(callee) {
+					for _, res := range r.Results {
+						if check(res, depth+1) {
+							return true
+						}
+					}
+				}
+			}
 		case *ssa.UnOp:
 			if x.Op == token.MUL {
 				if a, ok := x.X.(*ssa.Alloc); ok {
